@@ -66,6 +66,8 @@ CONSTANTS
 INVARIANT Emit
 CHECK_DEADLOCK FALSE
 """
+# X06_FAST=1: development / mutation-testing convenience (no model runs, smaller samples, no drift pass)
+FAST = bool(os.environ.get("X06_FAST"))
 U_OPS = ["present", "absent", "add", "replace", "delete"]
 U_FORMS = ["name", "type", "rdataset", "rdata", "text"]
 H_OPS = ["use_edns", "want_dnssec", "set_rcode", "set_opcode", "flags", "ednsflags", "wire", "make_response", "use_tsig", "is_response"]
@@ -108,17 +110,18 @@ def part_update(ctx, quick):
     if ctx.replay_case:
         hists = [ctx.replay_case["case"]["hist"]]
     else:
-        ctx.model("MC_UpdateMsg", "MC_UpdateMsg_quick.cfg" if quick else "MC_UpdateMsg_thorough.cfg", workers=1 if quick else 16)
+        if not FAST:
+            ctx.model("MC_UpdateMsg", "MC_UpdateMsg_quick.cfg" if quick else "MC_UpdateMsg_thorough.cfg", workers=1 if quick else 16)
         g = lambda name, **kw: gen(ctx, "Gen_UpdateMsg", U_CFG, name, U_DEF, **kw)  # noqa: E731
         hists = []
         # U1: every history of <= 2 (thorough 3, one class) calls, every call form, plain spelling
-        hists += g("u1.cfg") if quick else g("u1.cfg", maxc=3, zc=["IN"], names=["a"]) + g("u1b.cfg", zc=["CH"])
+        hists += g("u1.cfg", zc=["IN"] if FAST else ["IN", "CH"]) if quick else g("u1.cfg", maxc=3, zc=["IN"], names=["a"]) + g("u1b.cfg", zc=["CH"])
         # U2: every single call in every spelling of name / type / RDATA, 3 names, 3 types, the larger value arguments
-        hists += g("u2.cfg", names=["@", "a", "b.a"], types=["A", "TXT", "MX"], gs="GenGroupsBig", maxc=1,
+        hists += g("u2.cfg", names=["b.a"] if FAST else ["@", "a", "b.a"], types=["A", "TXT", "MX"], gs="GenGroupsBig", maxc=1,
                    nsp=["relstr", "absstr", "relname", "absname"], tsp=["str", "lower", "enum", "int"], rsp=["rel", "abs"])
         # U3: seeded random histories of 5 calls over everything; four runs, each mixing two spellings of names and
         # types (TLC's simulator evaluates every successor of every state it visits: the alphabet is kept moderate)
-        n = 300 if quick else 4000
+        n = (100 if FAST else 300) if quick else 4000
         for k, (nsp, tsp, rsp) in enumerate(((["relstr", "absname"], ["str", "enum"], ["rel"]), (["absstr", "relname"], ["lower", "int"], ["abs"]),
                                              (["relstr", "absstr"], ["str", "int"], ["abs"]), (["relname", "absname"], ["enum", "lower"], ["rel"]))):
             hists += g("u3%d.cfg" % k, names=["@", "a", "b.a"], types=["A", "TXT", "MX"], gs="GenGroupsBig", maxc=5, minc=5,
@@ -160,21 +163,22 @@ def part_header(ctx, quick):
     if ctx.replay_case:
         hists = [ctx.replay_case["case"]["hist"]]
     else:
-        ctx.model("MC_MsgHeader", "MC_MsgHeader_quick.cfg" if quick else "MC_MsgHeader_thorough.cfg", workers=1 if quick else 16)
-        ctx.model("MC_MsgHeader", "MC_MsgHeader_rcode_quick.cfg" if quick else "MC_MsgHeader_rcode.cfg", workers=1 if quick else 16)
+        if not FAST:
+            ctx.model("MC_MsgHeader", "MC_MsgHeader_quick.cfg" if quick else "MC_MsgHeader_thorough.cfg", workers=1 if quick else 16)
+            ctx.model("MC_MsgHeader", "MC_MsgHeader_rcode_quick.cfg" if quick else "MC_MsgHeader_rcode.cfg", workers=1 if quick else 16)
         g = lambda name, **kw: gen(ctx, "Gen_MsgHeader", H_CFG, name, H_DEF, **kw)  # noqa: E731
         hists = []
         # H1: every combination of the EDNS arguments of make_query, followed by <= 1 of wire / make_response / is_response
-        hists += g("h1.cfg", qsel="full", maxc=1, ops=["wire", "make_response", "is_response"], pay=[512, 1232])
+        hists += g("h1.cfg", qsel="full", maxc=1, ops=["wire", "make_response", "is_response"], pay=[1232] if FAST else [512, 1232])
         # H2: every history of <= 2 calls of any kind over small alphabets, 10 different queries
-        hists += g("h2.cfg", ext=[18], z=[32769]) if quick else g("h2.cfg", pay=[512, 1232], optseqs="GenOptionFew")
+        hists += g("h2.cfg", ext=[18], z=[32769], qsel="few" if FAST else "mid") if quick else g("h2.cfg", pay=[512, 1232], optseqs="GenOptionFew")
         # H3: query -> (sign / DO) -> response -> wire -> probe, larger alphabets
         hists += g("h3.cfg", maxc=3, minc=3, order="OrderRespWire", pay=[512, 1232, 4096], optseqs="GenOptionSeqs")
         # H4: every rcode -1..4096 from a message without and with EDNS, then the wire round trip
-        hists += g("h4.cfg", qsel="small", maxc=2, minc=2, rcodes="AllRcodes", order="OrderSweep", rsp=["int"] if quick else ["int", "enum"])
+        hists += g("h4.cfg", qsel="small", maxc=2, minc=2, rcodes="GenRcodes" if FAST else "AllRcodes", order="OrderSweep", rsp=["int"] if quick else ["int", "enum"])
         # H5: seeded random histories of 5 calls, two runs over different larger alphabets (TLC's simulator evaluates
         # every successor of every state it visits: each alphabet is kept moderate)
-        n = 700 if quick else 10000
+        n = (200 if FAST else 700) if quick else 10000
         hists += g("h5a.cfg", maxc=5, minc=5, rcodes="GenRcodes", ext=[0, 255], z=[1, 32768], pay=[512, 4096], optseqs="GenOptionFew",
                    pads=[0, 468], rsp=["int", "enum"], simulate="num=%d" % n, depth=8, seed=ctx.seed + 67, limit=4 * n)
         hists += g("h5b.cfg", maxc=5, minc=5, rcodes="GenRcodes", levels=[0, 255], ext=[18, 255], z=[0, 65535], pay=[1232, 65535],
@@ -196,7 +200,7 @@ def part_header(ctx, quick):
                       {"part": "header", "hist": jobmap[tr["tid"]], "line": line, "trace": tr})
     # drift (not a verdict): responses judged a second time with "CD copied" (RFC 4035 3.2.2) and "DO copied" (RFC 3225 3)
     resp = [tr for tr in traces if any(e["op"] == "make_response" and e["res"] == "ok" for e in tr["ev"])]
-    if resp and not ctx.replay_case and not rejects:
+    if resp and not ctx.replay_case and not rejects and not FAST:
         before = ctx.traces
         bad = ctx.validate("Trace_MsgHeader", "Trace_MsgHeader_strict.cfg", resp)
         ctx.traces = before
